@@ -88,9 +88,45 @@ fn artefacts_schema(args: &[Sexp]) -> Option<Artefacts> {
     let ir = match guarded(|| Schema::parse(&sdl)) {
         Err(info) => format!("panic: {info}"),
         Ok(Err(e)) => format!("error: {e}"),
-        Ok(Ok(_)) => "ok".to_string(),
+        Ok(Ok(schema)) => {
+            // an accepted schema is also queried through the crate's own `SchemaAdapter` (a
+            // deterministic adapter by documentation): rows in engine order are part of the artefacts
+            return Some(Artefacts { ir: "ok".to_string(), rows: introspect(&schema), calls: String::new() });
+        }
     };
     Some(Artefacts { ir, rows: String::new(), calls: String::new() })
+}
+
+const INTROSPECTION: [&str; 4] = [
+    "{ VertexType { name @output } }",
+    "{ VertexType { name @output implementer @fold { sub: name @output } property @fold { prop: name @output } edge @fold { edge: name @output parameter @fold { param: name @output } } } }",
+    "{ Entrypoint { name @output parameter @fold { param: name @output } } }",
+    "{ Schema { vertex_type { name @output implements @fold { sup: name @output } } } }",
+];
+
+/// Rows (in engine order) of the fixed introspection queries over `SchemaAdapter::new(schema)`.
+fn introspect(schema: &Schema) -> String {
+    use trustfall_core::schema::SchemaAdapter;
+    let meta = match Schema::parse(SchemaAdapter::schema_text()) {
+        Ok(m) => m,
+        Err(e) => return format!("meta schema rejected: {e}"),
+    };
+    let mut out = String::new();
+    for text in INTROSPECTION {
+        let r = guarded(|| {
+            let q = frontend::parse(&meta, text).map_err(|e| e.to_string())?;
+            let adapter = Arc::new(SchemaAdapter::new(schema));
+            let rows = trustfall_core::interpreter::execution::interpret_ir(adapter, q, Arc::new(Default::default())).map_err(|e| e.to_string())?;
+            Ok::<String, String>(rows.map(|row| format!("{row:?}")).collect::<Vec<_>>().join("\n"))
+        });
+        out.push_str(&match r {
+            Ok(Ok(rows)) => rows,
+            Ok(Err(e)) => format!("error: {e}"),
+            Err(info) => format!("panic: {info}"),
+        });
+        out.push_str("\n--\n");
+    }
+    out
 }
 
 fn artefacts(request: &Sexp) -> Option<Artefacts> {
@@ -335,7 +371,7 @@ impl Prop for C14 {
         "C14"
     }
     fn rule(&self) -> &'static str {
-        "the worlds of the engine generator. (det <schema> <data> <query> <args>): the query is compiled 3 times in one process, each time against a freshly parsed Schema (new RandomState keys in every HashMap), the RON of the IndexedQuery (or RON + Display of the error) compared byte for byte; executed 3 times over the logging table adapter, rows (in order) and the complete adapter event sequence (calls, pulled contexts, pulled neighbours) compared; then 2 fresh child processes recompute the same artefacts and their digests are compared. Besides the accepted queries, every world contributes broken queries with several frontend errors at once (duplicate output names, unused tags, undefined tag, unexpected edge parameters) and one schema text with several validation errors; (det-schema <sdl>) requests also cover every /repo/trustfall_core/test_data/tests/schema_errors/*.graphql (error Display text compared). The answer is `ok` iff all repetitions agree. Non-trivial: nt:rows (accepted query with >= 1 row), nt:multi-error (a compile or schema error listing >= 2 errors)."
+        "the worlds of the engine generator. (det <schema> <data> <query> <args>): the query is compiled 3 times in one process, each time against a freshly parsed Schema (new RandomState keys in every HashMap), the RON of the IndexedQuery (or RON + Display of the error) compared byte for byte; executed 3 times over the logging table adapter, rows (in order) and the complete adapter event sequence (calls, pulled contexts, pulled neighbours) compared; then 2 fresh child processes recompute the same artefacts and their digests are compared. Besides the accepted queries, every world contributes broken queries with several frontend errors at once (duplicate output names, unused tags, undefined tag, unexpected edge parameters) and one schema text with several validation errors; (det-schema <sdl>) requests also cover every /repo/trustfall_core/test_data/tests/schema_errors/*.graphql (error Display text compared); for an ACCEPTED schema four fixed introspection queries (vertex types with implementers/properties/edges/parameters, entry points, Schema.vertex_type with implements) are run through the crate's own SchemaAdapter and their rows compared in order. The answer is `ok` iff all repetitions agree. Non-trivial: nt:rows (accepted query with >= 1 row), nt:multi-error (a compile or schema error listing >= 2 errors)."
     }
     fn generate(&self, tier: Tier, rng: &mut Rng) -> Vec<Case> {
         let (worlds, stats) = generate_worlds(rng, &WorldKnobs::for_tier(tier));
